@@ -472,7 +472,7 @@ func c04Equiv(r *core.Run) {
 		w := 0
 		core.InstrsOf(fn, func(in ssa.Instruction) {
 			if mu, ok := in.(*ssa.MapUpdate); ok {
-				if _, _, isI := fieldLoadBy(mu.Map, isInstrInstrMap); isI {
+				if isInstrInstrMap(mu.Map.Type()) {
 					w++
 				}
 			}
@@ -483,9 +483,9 @@ func c04Equiv(r *core.Run) {
 	}
 	n := 0
 	if rec != nil {
-		for _, fn := range p.FuncsIn("pkg/diff") {
-			for _, ci := range core.Calls(fn, func(_ string, c *ssa.CallCommon) bool { return core.StaticCallee(c) == rec }) {
-				args := ci.Common().Args
+		{
+			for _, vs := range callSitesThroughForwarders(p, "pkg/diff", rec) {
+				fn, ci, args := vs.fn, vs.call, vs.args
 				if len(args) < 3 {
 					continue
 				}
@@ -643,7 +643,7 @@ func c04BlockMap(r *core.Run) {
 			base, _ := core.StripNot(cond)
 			if ex, ok := base.(*ssa.Extract); ok && ex.Index == 1 {
 				if lk, ok := ex.Tuple.(*ssa.Lookup); ok {
-					if _, _, isM := fieldLoadBy(lk.X, isInstrInstrMap); isM {
+					if isInstrInstrMap(lk.X.Type()) {
 						return "instruction is unmatched", true
 					}
 				}
